@@ -174,5 +174,5 @@ pub fn run_c34(ctx: &Ctx) -> i32 {
         }
     }
     rep.add("cases_evaluated_by_lean", cases.len() as u64);
-    rep.finish(ctx, ctx.tier.pick(100, 2000))
+    rep.finish(ctx, ctx.tier.pick(50, 2000))
 }
